@@ -15,11 +15,13 @@ int main(int argc, char** argv) {
     const std::vector<uint8_t> B1{'c', 'c', 'c', 'c'};
     hz::for_each_case(args, [&](size_t idx, const std::string& line) {
         mj::Value c = mj::parse(line); ++ncases;
-        mj::Value t = hz::rec("trace"); t.set("idx", (int64_t)idx); t.set("items", c["items"]);
-        std::vector<uint8_t> out; std::string err; bool ok = true;
+        for (int pass = 0; pass < 2; ++pass) {      // pass 1: the same items written again by the same encoder after reset(new sink)
+        mj::Value t = hz::rec("trace"); t.set("idx", (int64_t)(idx * 2 + pass)); t.set("items", c["items"]); t.set("reset", pass == 1);
+        std::vector<uint8_t> first, out; std::string err; bool ok = true;
         try {
             cbor::cbor_options op; op.pack_strings(true).use_typed_arrays(true);
-            cbor::cbor_bytes_encoder e(out, op);
+            cbor::cbor_bytes_encoder e(pass == 0 ? out : first, op);
+            if (pass == 1) { e.begin_array(2); e.string_value("aaaa"); e.string_value("aaaa"); e.end_array(); e.flush(); e.reset(out); }
             e.begin_array(c["items"].size());
             for (size_t i = 0; i < c["items"].size(); ++i) {
                 const std::string& n = c["items"][i].str();
@@ -46,6 +48,7 @@ int main(int argc, char** argv) {
         } catch (const std::exception& ex) { dec = ex.what(); }
         t.set("dec", dec); t.set("back", back);
         hz::emit(t);
+        }
     });
     mj::Value s = hz::rec("stat"); s.set("cases", (int64_t)ncases); hz::emit(s);
     return 0;
